@@ -137,4 +137,13 @@ func genOffsets(c *cf.Case, r *cf.Rng, prop string) {
 		}
 	}
 	c.MaxSimMs = int64(120000 + 40*(cfg.OffsetsRetryMax+1)*(cfg.ReadTimeoutMs+cfg.DialTimeoutMs+(cfg.MetaRetryMax+1)*(cfg.MetaBackoffMs+cfg.ReadTimeoutMs)))
+	// (drawn last: everything above is generated as it was before this option existed)
+	if r.Intn(3) == 0 {
+		for i := range c.Workload {
+			if c.Workload[i].Op == "close" {
+				// the application gives a partition up (AsyncClose) and asks for it again at once, marks still unflushed
+				c.Workload[i].Arg = "remanage"
+			}
+		}
+	}
 }
